@@ -140,6 +140,7 @@ def run_case(case):
             task.add_done_callback(lambda t, rec=rec: rec.__setitem__("done_at", loop.time()))
             rec["task"] = task
             waits.append(rec)
+        poll_expect = []
         loop.drain()  # waits are registered; only now may events arrive
         probe.clear()
         by_time = {}
@@ -212,7 +213,7 @@ def run_case(case):
                 if task.done():
                     raise Failure("wait-completes-without-match", f"{ctx}: done with {task.exception() or task.result()!r}")
                 t_done = None
-            if w.get("poll") and len(case["waits"]) == 1:
+            if w.get("poll"):
                 delay, interval = w["poll"][0] * unit, w["poll"][1] * unit
                 times = [t for t, m in sent if m.__class__.tag_name() == "getProperties"]
                 end = t_done if t_done is not None else horizon + 10 * max_interval * unit
@@ -225,12 +226,29 @@ def run_case(case):
                         break
                 must = [t for t in want if t < end]
                 may = [t for t in want if t == end]
-                if [t for t in times if t not in may] != must and times != must + may:
-                    raise Failure("polling-ticks", f"{ctx}: getProperties at {times}, expected {must} (+ optional {may}); done at {t_done}")
-                if t_done is not None and any(t > t_done for t in times):
-                    raise Failure("polling-after-completion", f"{ctx}: getProperties at {times} after completion at {t_done}")
+                poll_expect.append((must, may, t_done, ctx))
+                if len(case["waits"]) == 1:
+                    if [t for t in times if t not in may] != must and times != must + may:
+                        raise Failure("polling-ticks", f"{ctx}: getProperties at {times}, expected {must} (+ optional {may}); done at {t_done}")
+                    if t_done is not None and any(t > t_done for t in times):
+                        raise Failure("polling-after-completion", f"{ctx}: getProperties at {times} after completion at {t_done}")
             near = first is not None and timeout is not None and abs(first[0] - timeout) <= unit
             nt = nt or nonmatch_before or near or bool(w.get("poll")) or burst
+        if len(case["waits"]) > 1 and poll_expect:
+            # every polling wait re-requests on ITS schedule until IT completes: the requests seen are the multiset union
+            from collections import Counter
+
+            times = Counter(t for t, m in sent if m.__class__.tag_name() == "getProperties")
+            must_all = Counter(t for must, _, _, _ in poll_expect for t in must)
+            may_all = Counter(t for _, may, _, _ in poll_expect for t in may)
+            missing = must_all - times
+            extra = times - must_all - may_all
+            if missing or extra:
+                raise Failure(
+                    f"polling-ticks:concurrent:{'missing' if missing else 'extra'}",
+                    f"{[c for _, _, _, c in poll_expect]}: getProperties at {sorted(times.elements())}, expected {sorted(must_all.elements())} "
+                    f"(+ optional {sorted(may_all.elements())})",
+                )
         done_all = all(r["task"].done() for r in waits)
         if done_all and len(client.callbacks) != baseline:
             raise Failure("callback-left-registered", f"{len(client.callbacks)} callbacks registered after completion, baseline {baseline}")
